@@ -5,10 +5,10 @@ cd /repo || exit 2
 if ! git diff --quiet; then echo "REPO DIRTY"; exit 2; fi
 if ! git apply "$patch" 2>/tmp/muteval.err; then echo "APPLY-FAIL $patch: $(head -1 /tmp/muteval.err)"; exit 3; fi
 for p in "$@"; do
-  out=$(/verif/bin/xvc check $p --tier quick 2>&1)
+  out=$(XVC_OUT=/root/scratch/mutout /verif/bin/xvc check $p --tier quick 2>&1)
   rc=$?
   v=$(echo "$out" | grep -c '^VIOLATION')
-  first=$(echo "$out" | grep '^VIOLATION' | head -3 | sed 's/.*replay=\/verif\/replays\///' | tr '\n' ' ')
+  first=$(echo "$out" | grep '^VIOLATION' | head -3 | sed "s/.*replays.//" | tr '\n' ' ')
   echo "$(basename $(dirname $patch))/$(basename $patch) $p rc=$rc violations=$v $first"
 done
 git checkout -- . ; git clean -fdq -- . 2>/dev/null
